@@ -52,8 +52,25 @@ pub fn eval(c: &ValidCase) -> Outcome {
     let mdat = &run.out[lo..hi];
     // true locations, independent of the tables: search for each sample's (unique, tagged) bytes
     let mut locs: Vec<(usize, bool, usize, u64)> = Vec::new(); // (location, is_video, index, tick)
+    // long recordings: a byte search per sample would be quadratic; there the location is the table's offset, accepted only
+    // if the sample's (tagged, unique) bytes really are at that place
+    let fast = v.len() + a.len() > 3000;
     for (isv, list) in [(true, &v), (false, &a)] {
+        let tr = if isv { video_track(&p.movie) } else { audio_track(&p.movie) };
         for (i, e) in list.iter().enumerate() {
+            if fast {
+                let at = tr.and_then(|t| t.samples.get(i)).map(|s| s.offset as usize);
+                match at {
+                    Some(off) if off >= lo && off + e.bytes.len() <= hi && run.out[off..off + e.bytes.len()] == e.bytes[..] && e.bytes.len() >= 16 => {
+                        locs.push((off - lo, isv, i, if isv { e.dts } else { e.pts }));
+                    }
+                    _ => {
+                        o.unconstrained.push("sample_bytes_not_at_table_offset(C01)".into());
+                        return o;
+                    }
+                }
+                continue;
+            }
             let f = find_all(mdat, &e.bytes);
             if f.len() != 1 {
                 o.unconstrained.push(if f.is_empty() { "sample_bytes_not_found(C01)".into() } else { "sample_bytes_ambiguous".into() });
@@ -102,7 +119,8 @@ pub fn eval(c: &ValidCase) -> Outcome {
             );
         }
     }
-    let cross_equal = v.iter().any(|x| a.iter().any(|y| y.pts == x.dts));
+    let vt: std::collections::HashSet<u64> = v.iter().map(|x| x.dts).collect();
+    let cross_equal = a.iter().any(|y| vt.contains(&y.pts));
     o.nontrivial = v.len() >= 2 && a.len() >= 2 && (cross_equal || c.order % 4 != 1);
     if cross_equal {
         o.class("cross_track_equal_timestamp");
@@ -162,6 +180,6 @@ pub fn def() -> PropertyDef {
                for its uniquely tagged bytes (independent of the tables); non-trivial = >=2 samples per track and an equal cross-track \
                timestamp or a submission order different from timestamp order",
         assumptions: &["sample payloads carry a unique 16-byte tag, so a byte search locates them unambiguously (ambiguous cases are counted and skipped)"],
-        subs: vec![Box::new(PSub { name: "interleave", quick: 30000, thorough: 800000, strat, eval })],
+        subs: vec![Box::new(PSub { name: "interleave", quick: 30000, thorough: 800000, strat, eval }), Box::new(LSub { name: "long_recordings", cases: long_cases_all, eval, note: LONG_NOTE })],
     }
 }
